@@ -47,6 +47,12 @@ func NewClientServerStream(ctx context.Context) *ClientServerStream {
 }
 
 func (s *ClientServerStream) Close(err error) {
+	if err == io.EOF {
+		// io.EOF is how the client half reports a clean end of the stream (closeErrLocked, RecvMsg):
+		// a handler that returns io.EOF, typically the EOF of its own Recv handed on, has failed,
+		// and like a gRPC server does for any error that is not a status, the call ends with Unknown "EOF"
+		err = status.Error(codes.Unknown, err.Error())
+	}
 	// like gRPC, deliver headers staged with SetHeader along with the final status
 	// when the handler returns without having sent any header or message
 	_ = (&serverStream{s}).SendHeader(nil)
